@@ -42,6 +42,9 @@ CHECKS = {
     "C12": C("c12", dict(checks=300, shards=4, timeout=600), dict(checks=10000, shards=16, timeout=6000),
              "property-based testing (rapid), model-based: generated edit histories on MutableOverlayWorld compared step by step with a per-feature map of tags (lookup, Get, existence, ordered tag searches, enumeration)",
              "Trusted: the per-feature map model. Replacements keep geometry and new features are points or relations, so every AddFeature is valid (rejections are C13's subject). Tag values are strings; geometry tags are not edited."),
+    "C13": C("c13", dict(checks=400, shards=4, timeout=600), dict(checks=6000, shards=16, timeout=6000),
+             "property-based testing (rapid): generated histories ending in an invalid change; metamorphic oracle: a rejected call leaves the canonical snapshot of every read query unchanged",
+             "Trusted: Observe (the snapshot of all read queries). Accepted attempts are not judged here (validity of accepted states is C37)."),
     "C31": C("c31", dict(checks=4000, shards=2, timeout=300), dict(checks=40000, shards=16, timeout=3000),
              "property-based testing (rapid): round trips of generated feature IDs through every encoding, and order laws on generated triples with a differential against the compact index order",
              "Trusted: encoders/decoders of encoding/json, gopkg.in/yaml.v2 and protobuf. IDs in the postcode and ONS alias namespaces are restricted to values the packers produce (other values have no alias form). Namespaces exclude control characters."),
